@@ -8,12 +8,16 @@ def run(chk):
     chk.trust("python semantics of the stated subset as encoded by pyvc (DESIGN 2.3)")
     chk.trust("z3 5.1.0")
     X.counters_contract(chk, "C09")
+    from . import lockset
+    lockset.lock_discipline(chk, "C09", ["success_count", "failure_count"], cls_key="concurrency.models.ExecutionCounters")   # the counters the policy reads are updated and read under their lock
     X.reason_consistency(chk, "C09")
     X.create_result_items(chk, "C09")
     X.replay_items(chk, "C09")
     X.execute_structure(chk, "C09")
     X.item_in_child_context(chk, "C09")
     X.on_task_complete(chk, "C09", want=("C07",))
+    from . import misc_contracts
+    misc_contracts.models_transitions(chk, "C09")   # incl. publish order: what _create_result reads without a lock is consistent after every single store
     from . import batch_accessors
     chk.assume("S: a comprehension [E(x) for x in xs if P(x)] is the in-order filter-map of xs; sum(1 for ..) counts; any(..) is the disjunction; next(gen, None) is the first element or None")
     batch_accessors.accessors(chk, "C09")   # how user code reads the reported branches: succeeded()/failed()/started()/get_results()/get_errors()/counts/status/throw_if_error
